@@ -14,6 +14,8 @@ func genC09(cfg runCfg, e *emitter, rng *rand.Rand) {
 	rowsChoices := []uint8{0, 4, 63}
 	for hI := 0; hI < nHist; hI++ {
 		e.line("CASE part%d", hI)
+		mmReset()
+		prng := rand.New(rand.NewSource(cfg.seed*1000003 + int64(hI)))
 		e.line("RESET")
 		rf := &refForest{}
 		m := u.NewMapPollard(false)
@@ -60,14 +62,14 @@ func genC09(cfg runCfg, e *emitter, rng *rand.Rand) {
 					}
 					proof, _ := rf.prove(dels)
 					if len(dels) > 0 {
-						if err := pi.m.Verify(dels, proof, true); err != nil {
+						if err := mmVerify(e, pi.m, dels, proof); err != nil {
 							e.hfail("VerifyRemember", "%v", err)
 							ok = false
 							return
 						}
 					}
 					hist = append(hist, blockRec{dels: dels, adds: adds, remAdds: remAdds, proof: proof, prevRoots: rf.roots(), before: rf.clone()})
-					if err := pi.m.Modify(leaves, dels, proof); err != nil {
+					if err := mmModify(e, pi.m, leaves, dels, proof); err != nil {
 						e.hfail("Modify", "%v", err)
 						ok = false
 						return
@@ -92,7 +94,7 @@ func genC09(cfg runCfg, e *emitter, rng *rand.Rand) {
 					sub := append([]u.Hash{}, live[:1+rng.Intn(min(len(live), 4))]...)
 					proof, _ := rf.prove(sub)
 					if rng.Intn(2) == 0 {
-						if err := pi.m.Verify(sub, proof, true); err != nil {
+						if err := mmVerify(e, pi.m, sub, proof); err != nil {
 							e.hfail("VerifyRemember2", "%v", err)
 							ok = false
 							return
@@ -100,7 +102,7 @@ func genC09(cfg runCfg, e *emitter, rng *rand.Rand) {
 						sig += fmt.Sprintf("V%d;", len(sub))
 						e.count("op_verify_remember")
 					} else {
-						if err := pi.m.Ingest(sub, proof); err != nil {
+						if err := mmIngest(e, pi.m, sub, proof); err != nil {
 							e.hfail("Ingest", "%v", err)
 							ok = false
 							return
@@ -118,7 +120,7 @@ func genC09(cfg runCfg, e *emitter, rng *rand.Rand) {
 					}
 					rng.Shuffle(len(rl), func(i, j int) { rl[i], rl[j] = rl[j], rl[i] })
 					sub := rl[:1+rng.Intn(len(rl))]
-					if err := pi.m.Prune(sub); err != nil {
+					if err := mmPrune(e, pi.m, sub); err != nil {
 						e.hfail("Prune", "%v", err)
 						ok = false
 						return
@@ -134,7 +136,7 @@ func genC09(cfg runCfg, e *emitter, rng *rand.Rand) {
 					}
 					r := hist[len(hist)-1]
 					hist = hist[:len(hist)-1]
-					if err := pi.m.Undo(uint64(len(r.adds)), r.proof, r.dels, r.prevRoots); err != nil {
+					if err := mmUndo(e, pi.m, uint64(len(r.adds)), r.proof, r.dels, r.prevRoots); err != nil {
 						e.hfail("Undo", "rows %d: %v", pi.m.TotalRows, err)
 						ok = false
 						return
@@ -164,6 +166,14 @@ func genC09(cfg runCfg, e *emitter, rng *rand.Rand) {
 			})
 			if ok {
 				observePartial(e, pi, rf, dead, rng)
+				// calls an honest caller would not make, on a clone (own random stream: the histories stay as they are)
+				if prng.Intn(4) == 0 {
+					var last *blockRec
+					if len(hist) > 0 {
+						last = &hist[len(hist)-1]
+					}
+					mmProbe(e, pi.m, rf, sortedSet(pi.R), last, prng)
+				}
 			}
 		}
 		e.distinct(sig)
